@@ -16,6 +16,8 @@ import traceback
 
 VERIF = os.path.dirname(os.path.dirname(os.path.abspath(__file__)))
 REPO = os.environ.get('PYVC_REPO', '/repo')
+# runs against a scratch copy (planted / seeded changes) must not overwrite the committed evidence
+OUT = VERIF if os.path.realpath(REPO) == '/repo' else os.path.join(REPO, '.pyvc-out')
 sys.path.insert(0, VERIF)
 sys.path.insert(0, REPO)
 
@@ -39,7 +41,7 @@ def run_property(prop, tier, seed):
     built = mod.build(reg)
     targets = [c for c in built if not c.assumed]
     ex = Exec(reg, prop=prop)
-    budget = float(os.environ.get('PYVC_BUDGET', 20 if tier == 'quick' else 90))
+    budget = float(os.environ.get('PYVC_BUDGET', 45 if tier == 'quick' else 120))
     report = {'functions': [], 'structure_errors': [], 'lemmas': [], 'audits': [], 'bounded': []}
     allobl = []
     for c in targets:
@@ -142,7 +144,7 @@ def summarise(prop, tier, seed, rep):
 
 
 def write_replay(prop, key, obs, rep, extra=None):
-    d = os.path.join(VERIF, 'replay', prop)
+    d = os.path.join(OUT, 'replay', prop)
     os.makedirs(d, exist_ok=True)
     safe = key.replace('/', '__').replace(' ', '_')
     path = os.path.join(d, safe + '.json')
@@ -317,8 +319,8 @@ def write_evidence(prop, tier, seed, rep, proofs, covers, by_clause, failed, und
             'A-ASSERT: assert statements are enabled', 'A-LOG: logging calls (and their arguments) are dropped',
             'E-EXC: environment exceptions are enumerated by representative classes'],
            'wall_s': round(wall, 2), 'violations': len(violations)}
-    os.makedirs(os.path.join(VERIF, 'evidence'), exist_ok=True)
-    with open(os.path.join(VERIF, 'evidence', prop + '.json'), 'w') as f:
+    os.makedirs(os.path.join(OUT, 'evidence'), exist_ok=True)
+    with open(os.path.join(OUT, 'evidence', prop + '.json'), 'w') as f:
         json.dump(doc, f, indent=1, default=repr)
 
 
